@@ -1112,20 +1112,28 @@ class MultipartWriter(Payload):
     def size(self) -> int | None:
         """Size of the payload."""
         total = 0
+        unknown = False
         for part, encoding, te_encoding in self._parts:
+            # Serialize the headers of every part, also behind one of unknown
+            # size: a header that can't be sent is reported here, before the
+            # message is started, and not in the middle of writing it.
+            headers_len = len(part._binary_headers)
             part_size = part.size
             if encoding or te_encoding or part_size is None:
-                return None
+                unknown = True
+                continue
 
             total += int(
                 2
                 + len(self._boundary)
                 + 2
                 + part_size  # b'--'+self._boundary+b'\r\n'
-                + len(part._binary_headers)
+                + headers_len
                 + 2  # b'\r\n'
             )
 
+        if unknown:
+            return None
         total += 2 + len(self._boundary) + 4  # b'--'+self._boundary+b'--\r\n'
         return total
 
